@@ -24,10 +24,11 @@ from ..pool import pmap
 from ..tlc import MachineryError
 
 CFG = {"quick": "ReadOnlyQuick.cfg", "thorough": "ReadOnlyThorough.cfg"}
-ASBUILT = {"RepackOnReadOnlyClose": "AsBuiltRepackExport.cfg"}
+ASBUILT = {"RepackOnReadOnlyClose": "AsBuiltRepackExport.cfg", "RepeatAccepted": "AsBuiltRepeatExport.cfg"}
 NEGATIVE = [("NegRepackOnReadOnlyClose.cfg", "ReadOnlyFrozen"), ("NegWriteIgnored.cfg", "WritesRefused"),
             ("NegWriteThroughReadOnly.cfg", "ReadOnlyFrozen"), ("NegLazyGetterUpgrades.cfg", "ReadOnlyFrozen"),
-            ("NegHelperUpgrades.cfg", "HelpersPreserveSource"), ("NegHelperOpensWritable.cfg", "HelpersPreserveSource")]
+            ("NegHelperUpgrades.cfg", "HelpersPreserveSource"), ("NegHelperOpensWritable.cfg", "HelpersPreserveSource"),
+            ("NegRepeatAccepted.cfg", "RepeatRefused")]
 HOWS = ("close", "finalize", "exit")
 MIN_W, MIN_G, MIN_REFUSED = 100, 300, 100  # vacuity thresholds
 _CTX = {}
@@ -122,15 +123,17 @@ def _single_pass(eps, classes, seed):
         if c is None or c["cls"] == "X":
             continue
         bound = {"id": ep["id"], "kind": ep["kind"], "name": ep["name"], "cls": ep["cls"], "family": ep["family"],
-                 "loc": ep["loc"], "tag": c["tag"]}
+                 "loc": ep["loc"], "tag": c["tag"], "deferred": c.get("note") == "deferred"}
         if c["cls"] == "G":
             by_holder[ep["cls"]].append(rr.step_for("Read", {"op": ep["op"]}, bound))
             continue
         act = "Write" if c["cls"] == "W" else "Probe"
         n += 1
-        items.append({"kind": "pass", "steps": [rr.step_for("Open", {"m": "r"}, variant=0),
-                                                 rr.step_for(act, {"op": ep["op"]}, bound),
-                                                 rr.step_for("Close", {"how": HOWS[(n + seed) % 3]})]})
+        steps = [rr.step_for("Open", {"m": "r"}, variant=0), rr.step_for(act, {"op": ep["op"]}, bound)]
+        if act == "Write" and ep["kind"] == "set":  # the refused assignment once more, verbatim (twice for every third)
+            steps += [rr.step_for("Repeat", {"op": ep["op"]})] * (2 if (n + seed) % 3 == 0 else 1)
+        steps.append(rr.step_for("Close", {"how": HOWS[(n + seed) % 3]}))
+        items.append({"kind": "pass", "steps": steps})
     rng = random.Random(seed)
     for cls in sorted(by_holder):
         reads = by_holder[cls]
@@ -160,7 +163,7 @@ def _run(tier, seed, tmp, t0):
     t_spec = time.time()
     # ---- specification (all TLC runs side by side: they are independent JVMs)
     from concurrent.futures import ThreadPoolExecutor
-    with ThreadPoolExecutor(max_workers=5) as pool:
+    with ThreadPoolExecutor(max_workers=6) as pool:
         f_ideal = pool.submit(_graph, CFG[tier])
         f_dev = {name: pool.submit(_graph, cfg, False) for name, cfg in ASBUILT.items()}
         f_neg = [pool.submit(_negative, cfg, prop) for cfg, prop in NEGATIVE]
@@ -210,7 +213,7 @@ def _run(tier, seed, tmp, t0):
     # what the cover must plan: thorough = every (state, label); quick = every label of the open/close/helper/fetch actions
     # in every state with at most one content change, every operation class in the two primary read-only states, and one
     # operation class per (state, action) elsewhere (rotating with the seed)
-    primary = {"r/0/sync/none", "r/0/any/none"}
+    primary = {"r/0/sync/none/none", "r/0/any/none/none"}
     wanted = set()
     for s_key in sorted(ideal.out):
         st = ideal.states[s_key]
@@ -255,7 +258,7 @@ def _run(tier, seed, tmp, t0):
     skipped = {}
     probe_out = {}
     reclassified = set()
-    steps = truncated = writes_refused = reads_ok = 0
+    steps = truncated = writes_refused = reads_ok = repeats_refused = 0
     for r in results:
         for v in r["violations"]:
             per_sig[v["signature"]] += 1
@@ -265,6 +268,7 @@ def _run(tier, seed, tmp, t0):
         steps += st["steps"]
         truncated += st["truncated"]
         writes_refused += st["writes_refused"]
+        repeats_refused += st["repeats_refused"]
         reads_ok += st["reads_ok"]
         acts.update(st["acts"])
         labels.update(st["labels"])
@@ -293,7 +297,10 @@ def _run(tier, seed, tmp, t0):
                                      f"would be vacuous")
         if writes_refused < MIN_REFUSED:
             raise MachineryError("too few refused writes observed")
-        for act in ("Open", "ReOpen", "Close", "SaveAs", "Read", "Write", "Probe", "Helper", "FetchEnter", "FetchExit"):
+        if repeats_refused < MIN_REFUSED:
+            raise MachineryError("too few repeated refused assignments observed")
+        for act in ("Open", "ReOpen", "Close", "SaveAs", "Read", "Write", "Probe", "Repeat", "Helper", "FetchEnter",
+                    "FetchExit"):
             if acts[act] < 5:
                 raise MachineryError(f"action {act} was replayed {acts[act]} times only")
 
@@ -319,6 +326,8 @@ def _run(tier, seed, tmp, t0):
         "entry_points_exercised_in_mode_r": len(exercised),
         "getter_reads_ok_in_mode_r": reads_ok,
         "writes_refused_in_mode_r": writes_refused,
+        "repeated_assignments_refused_again": repeats_refused,
+        "mutating_deferred_to_close": sum(1 for c in cls_list if c.get("note") == "deferred"),
         "helpers_ok": dict(helpers_ok),
         "sequences": {"single_pass": n_pass, "cover": len(cover), "random": len(items) - n_pass - len(cover)},
         "graph_labels": total_labels, "graph_labels_wanted": len(wanted), "graph_labels_planned": n_planned, "graph_labels_replayed": len(labels & _all_labels(ideal)),
